@@ -64,6 +64,31 @@ theorem zrleRect_decodes {σ τ : Type} (hpack : PackLaw) (Z : ZLaw σ τ) (s : 
   rw [List.append_nil] at this
   rw [this]
 
+/-! ### Ultra (LZO1X, stateless) -/
+
+/-- assumed law of the LZO codec: decompressing what `lzo1x_1_compress` produced gives the input -/
+structure LzoLaw where
+  compress : Bytes → Bytes
+  decompress : Bytes → Option Bytes
+  law : ∀ x, decompress (compress x) = some x
+  small : ∀ x, (compress x).length < 4294967296
+
+/-- what `rfbSendOneRectEncodingUltra` puts after the rectangle header -/
+def ultraPayload (L : LzoLaw) (bpp : Nat) (px : List Pixel) : Bytes :=
+  u32be (L.compress (pixelsBytes bpp px)).length ++ L.compress (pixelsBytes bpp px)
+
+/-- **Ultra encoding**, one rectangle (one piece of the row splitting) -/
+theorem ultraRect_decodes (L : LzoLaw) (g : Geometry) (bpp : Nat) (px : List Pixel) (rest : Bytes)
+    (hlen : px.length = g.w * g.h) (hpx : ∀ p ∈ px, PixOK bpp p) :
+    decodeUltra L.decompress g bpp (ultraPayload L bpp px ++ rest) = some (px, rest) := by
+  unfold decodeUltra decodeZlib ultraPayload
+  rw [readChunk32_payload _ _ (L.small _)]
+  simp only [L.law]
+  have := readPixels_pixelsBytes bpp px [] hpx
+  rw [hlen, List.append_nil] at this
+  unfold decodeRaw
+  rw [this]
+
 /-! ### sequences: several rectangles / updates over one connection, stream state persists -/
 
 /-- server side: payloads of a sequence of Zlib rectangles -/
